@@ -15,6 +15,14 @@
 #endif
 
 #define BUF_SIZE 32768
+
+/* Storage for results that are handed out as a pointer to library memory must
+ * not be shared between threads using independent contexts */
+#if defined(_MSC_VER) && !defined(__clang__)
+#define ZCK_THREAD_LOCAL __declspec(thread)
+#else
+#define ZCK_THREAD_LOCAL _Thread_local
+#endif
 /* Maximum string length for a compressed size_t */
 #define MAX_COMP_SIZE (((sizeof(size_t) * 8) / 7) + 1)
 
